@@ -2488,3 +2488,289 @@ def hclust_kw_siblings(H):
     s = H["seqs_list"]
     return [prs.hierarchical_clustering(s)[1], prs.hierarchical_clustering(s, cluster_kws=dict(t=2, criterion="distance"))[1],
             prs.hierarchical_clustering(s, linkage_kws=dict(method="single"))[1], prs.hierarchical_clustering(s)[1]]
+
+
+# =============================================================================================
+# grid templates: one template per combination of a pairwise-covering subset of an option grid, over small pools
+# of inputs.  State keyed by part of (input, options) meets its colliding victim somewhere in the grid.
+# =============================================================================================
+def _pairwise(axes, cap=40):
+    """Greedy all-pairs covering array over dict name -> list of values; deterministic."""
+    import itertools
+
+    names = list(axes)
+    if not names:
+        return [{}]
+    full = [dict(zip(names, combo)) for combo in itertools.product(*[axes[n] for n in names])]
+    if len(full) <= cap:
+        return full
+    need = set()
+    for a, b in itertools.combinations(range(len(names)), 2):
+        for va in range(len(axes[names[a]])):
+            for vb in range(len(axes[names[b]])):
+                need.add((a, va, b, vb))
+    idx = [dict(zip(names, combo)) for combo in itertools.product(*[range(len(axes[n])) for n in names])]
+    chosen = []
+    while need and len(chosen) < cap:
+        best, gain = None, -1
+        for cand in idx:
+            g = sum(1 for (a, va, b, vb) in need if cand[names[a]] == va and cand[names[b]] == vb)
+            if g > gain:
+                best, gain = cand, g
+        if gain <= 0:
+            break
+        chosen.append(best)
+        need = {(a, va, b, vb) for (a, va, b, vb) in need if not (best[names[a]] == va and best[names[b]] == vb)}
+    return [{n: axes[n][c[n]] for n in names} for c in chosen]
+
+
+def grid(group, base, fn, axes, cap=40, **flags):
+    """fn(H, **params) -> value.  Axis values are (label, value) pairs; heap objects are named by 'H:<name>'."""
+    combos = _pairwise({k: list(range(len(v))) for k, v in axes.items()}, cap)
+    for ci, combo in enumerate(combos):
+        params = {k: axes[k][i][1] for k, i in combo.items()}
+        label = ",".join("%s=%s" % (k, axes[k][i][0]) for k, i in combo.items())
+        name = "%s[%s]" % (base, label)
+
+        def make(params=params):
+            def call(H, cb=None):
+                kw = {}
+                for k, v in params.items():
+                    if isinstance(v, str) and v.startswith("H:"):
+                        v = H[v[2:]]
+                    elif v is _CB:
+                        v = cb
+                    kw[k] = v
+                return fn(H, **kw)
+
+            return call
+
+        inner = make()
+        uses_cb = any(v is _CB for v in params.values())
+        if uses_cb:
+            f = lambda H, cb=None, inner=inner: inner(H, cb=cb)  # noqa: E731
+            fl = dict(flags, cb=flags.get("cb", cb_lev2))
+        else:
+            f = lambda H, inner=inner: inner(H)  # noqa: E731
+            fl = {k: v for k, v in flags.items() if k != "cb"}
+        f.__name__ = name
+        assert name not in OPS, name
+        OPS[name] = Op(name, f, group, **fl)
+
+
+class _CBType:
+    def __repr__(self):
+        return "<callback>"
+
+
+_CB = _CBType()
+SEQ_POOL = [("list", "H:seqs_list"), ("list_b", "H:seqs_list_b"), ("arr", "H:seqs_arr"), ("arr_b", "H:seqs_arr_b")]
+MODES = [("lev", None), ("ham", "hamming"), ("cb", _CB)]
+
+
+def _g_kdtree(H, seqs, max_edits, mode, compression, max_returns, out):
+    kw = dict(max_edits=max_edits, custom_distance=mode, compression=compression, max_returns=max_returns, output_type=out)
+    if callable(mode):
+        kw["max_custom_distance"] = 4
+    r = prs.kdtree(seqs, **kw)
+    if out != "triplets":
+        return r
+    return sorted(r) if max_returns is None else sorted((i, d) for i, _, d in r)
+
+
+grid("kdtree", "g_kdtree", _g_kdtree,
+     dict(seqs=SEQ_POOL, max_edits=[("1", 1), ("2", 2)], mode=MODES, compression=[("1", 1), ("4", 4)],
+          max_returns=[("all", None), ("2", 2)], out=[("trip", "triplets"), ("nd", "ndarray")]), cap=30)
+
+
+def _g_kdtree_pool(H, seqs, max_edits, mode, n_cpu):
+    return sorted(prs.kdtree(seqs, max_edits=max_edits, custom_distance=mode, n_cpu=n_cpu))
+
+
+grid("kdtree", "g_kdtree_pool", _g_kdtree_pool,
+     dict(seqs=SEQ_POOL, max_edits=[("1", 1), ("2", 2)], mode=MODES, n_cpu=[("2", 2), ("3", 3), ("5", 5)]), cap=16, pool=True)
+
+
+def _g_symdel(H, fn, seqs, max_edits, mode, seqs2):
+    f = getattr(prs, fn)
+    if fn == "hash_based":
+        max_edits = 1  # the two-edit ball of a 13-letter string is ~10^5 strings per query: too slow for a template
+    kw = dict(max_edits=max_edits, custom_distance=mode)
+    if fn != "hash_based":
+        kw["seqs2"] = seqs2
+    if callable(mode):
+        kw["max_custom_distance"] = 4
+    return sorted(f(seqs, **kw))
+
+
+grid("symdel", "g_search", _g_symdel,
+     dict(fn=[("symdel", "symdel"), ("nn", "nearest_neighbor"), ("hash", "hash_based")], seqs=SEQ_POOL,
+          max_edits=[("1", 1), ("2", 2)], mode=MODES, seqs2=[("none", None), ("l2", "H:seqs_list2"), ("arr", "H:seqs_arr")]), cap=30)
+
+
+def _g_db(H, db, queries, mode):
+    kw = dict(custom_distance=mode)
+    if callable(mode):
+        kw["max_custom_distance"] = 4
+    return sorted(H[db].lookup(queries, **kw))
+
+
+grid("db", "g_db", _g_db,
+     dict(db=[("symdel", "symdel_db"), ("lookup", "lookup_db")], mode=MODES,
+          queries=[("q1", ["CAAF", "CCCC", "CAAA"]), ("q2", ["CAAF", "CDDD", "CAKA", "CAA"]), ("arr", "H:seqs_arr"), ("arr_b", "H:seqs_arr_b")]))
+
+
+def _g_pcdelta(H, seqs, seqs2, bins, normalize, pseudocount, metric):
+    return prs.pcDelta(seqs, seqs2, metric=metric, bins=bins, normalize=normalize, pseudocount=pseudocount)
+
+
+grid("pcDelta", "g_pcDelta", _g_pcdelta,
+     dict(seqs=[("list", "H:seqs_list"), ("list_b", "H:seqs_list_b"), ("series", "H:seqs_series")],
+          seqs2=[("none", None), ("l2", "H:seqs_list2")], bins=[("def", None), ("arr", "H:bins_arr"), ("5", 5)],
+          normalize=[("T", True), ("F", False)], pseudocount=[("0", 0.0), ("h", 0.5)],
+          metric=[("def", None), ("lev", "H:metric_lev"), ("wlev", "H:metric_wlev")]), cap=24)
+
+
+def _g_pcdelta_tbl(H, df, df2, metric, bins):
+    return prs.pcDelta(df, df2, metric=metric, bins=bins)
+
+
+grid("pcDelta", "g_pcDelta_tbl", _g_pcdelta_tbl,
+     dict(df=[("tcr", "H:df_tcr"), ("tcr2", "H:df_tcr2")], df2=[("none", None), ("tcr2", "H:df_tcr2"), ("tcr", "H:df_tcr")],
+          metric=[("def", None), ("beta", "H:metric_beta"), ("cdr3", "H:metric_cdr3"), ("all", "H:metric_cdrall"), ("acdr", "H:metric_alphacdr")],
+          bins=[("def", None), ("arr", "H:bins_arr")]), cap=20)
+
+
+def _g_metric(H, metric, a, b):
+    m = H[metric]
+    return [m.calc_cdist_matrix(a, b), m.calc_pdist_vector(a)]
+
+
+grid("metric", "g_metric_tbl", _g_metric,
+     dict(metric=[("beta", "metric_beta"), ("cdr3", "metric_cdr3"), ("all", "metric_cdrall"), ("acdr", "metric_alphacdr")],
+          a=[("tcr", "H:df_tcr"), ("tcr2", "H:df_tcr2")], b=[("tcr", "H:df_tcr"), ("tcr2", "H:df_tcr2")]))
+grid("metric", "g_metric_str", _g_metric,
+     dict(metric=[("lev", "metric_lev"), ("wlev", "metric_wlev")], a=SEQ_POOL, b=[("l2", "H:seqs_list2"), ("short", "H:seqs_short")]))
+
+
+def _g_standardize(H, df, enforce, tcr_precision, mhc_precision, species, strict):
+    return prs.standardize_dataframe(df, tcr_enforce_functional=enforce, tcr_precision=tcr_precision, mhc_precision=mhc_precision,
+                                     species=species, strict_cdr3_standardization=strict, suppress_warnings=True)
+
+
+grid("standardize", "g_standardize", _g_standardize,
+     dict(df=[("raw", "H:df_raw"), ("nf", "H:df_raw_nonfunctional"), ("tcr", "H:df_tcr")], enforce=[("T", True), ("F", False)],
+          tcr_precision=[("gene", "gene"), ("allele", "allele")], mhc_precision=[("gene", "gene"), ("protein", "protein"), ("allele", "allele")],
+          species=[("human", "HomoSapiens"), ("mouse", "MusMusculus")], strict=[("F", False), ("T", True)]), cap=24)
+
+
+def _g_stats(H, df, features, by, base):
+    out = [prs.renyi2_entropy(df, features, by=by, base=base)]
+    if by is None:
+        out.append(prs.stdrenyi2_entropy(df, features, base=base))
+        out.append(prs.pc(df[features]) if not isinstance(features, list) else prs.pc_joint(df, features))
+    else:
+        out.append(prs.pc_conditional(df, by, features))
+        out.append(prs.pc_grouped_cross(df, by, features))
+    return out
+
+
+grid("entropy", "g_stats", _g_stats,
+     dict(df=[("a", "H:df_stats"), ("b", "H:df_stats_b"), ("cat", "H:df_categorical")], features=[("a", "a"), ("ab", ["a", "b"]), ("b", "b")],
+          by=[("none", None), ("group", "group"), ("lgroup", ["group"])], base=[("2", 2.0), ("e", None), ("10", 10)]), cap=20)
+
+
+def _g_hclust(H, seqs, metric, linkage_kws, cluster_kws):
+    kw = {}
+    if linkage_kws is not None:
+        kw["linkage_kws"] = linkage_kws
+    if cluster_kws is not None:
+        kw["cluster_kws"] = cluster_kws
+    return prs.hierarchical_clustering(seqs, metric=metric, **kw)
+
+
+grid("hclust", "g_hclust", _g_hclust,
+     dict(seqs=[("list", "H:seqs_list"), ("list_b", "H:seqs_list_b"), ("eq", "H:seqs_eqlen")],
+          metric=[("def", None), ("lev", "H:metric_lev"), ("wlev", "H:metric_wlev")],
+          linkage_kws=[("def", None), ("heap", "H:dict_linkage"), ("single", {"method": "single"})],
+          cluster_kws=[("def", None), ("heap", "H:dict_cluster"), ("maxclust", {"t": 3, "criterion": "maxclust"})]), cap=16)
+
+
+def _g_graph(H, triplets, nodes, clustering):
+    return prs.graph_clustering(triplets, nodes, clustering=clustering)
+
+
+grid("graph", "g_graph", _g_graph,
+     dict(triplets=[("arr", "H:triplets_arr"), ("list", "H:triplets_list")], nodes=[("list", "H:nodes_list"), ("series", "H:nodes_series")],
+          clustering=[("cc", "cc"), ("fg", "fastgreedy"), ("ml", "multilevel"), ("dbscan", "DBSCAN")]), rand=True)
+
+
+def _g_subsample(H, counts, n):
+    return prs.subsample(counts, n)
+
+
+grid("subsample", "g_subsample", _g_subsample,
+     dict(counts=[("arr", "H:counts_arr"), ("arr_b", "H:counts_arr_b"), ("list", "H:counts_list"), ("ro", "H:counts_readonly")],
+          n=[("0", 0), ("3", 3), ("9", 9), ("all", 19)]), rand=True)
+
+
+def _g_downsample(H, seqs, maxseqs):
+    return prs.downsample(seqs, maxseqs)
+
+
+grid("downsample", "g_downsample", _g_downsample,
+     dict(seqs=[("list", "H:seqs_list"), ("arr", "H:seqs_arr"), ("series", "H:seqs_named_series"), ("tcr", "H:df_tcr"), ("tuple", "H:seqs_tuple")],
+          maxseqs=[("none", None), ("0", 0), ("3", 3), ("5", 5), ("big", 50)]), cap=16, rand=True)
+
+
+def _g_colors(H, fn, labels, min_count):
+    return getattr(pp, fn)(labels, min_count=min_count)
+
+
+grid("colors", "g_colors", _g_colors,
+     dict(fn=[("hls", "labels_to_colors_hls"), ("tab", "labels_to_colors_tableau")],
+          labels=[("many", "H:many_labels"), ("nodes", "H:nodes_list"), ("series", "H:nodes_series")],
+          min_count=[("none", None), ("1", 1), ("2", 2)]), rand=True)
+
+
+def _g_rankfreq(H, data, normalize_x, normalize_y, log):
+    import matplotlib.pyplot as plt
+
+    fig, ax = plt.subplots()
+    return pp.rankfrequency(data, ax=ax, normalize_x=normalize_x, normalize_y=normalize_y, log_x=log, log_y=log)
+
+
+grid("rankfreq", "g_rankfreq", _g_rankfreq,
+     dict(data=[("arr", "H:counts_arr"), ("clone", "H:clone_sizes"), ("list", "H:counts_list")], normalize_x=[("T", True), ("F", False)],
+          normalize_y=[("F", False), ("T", True)], log=[("T", True), ("F", False)]), cap=10)
+
+
+def _g_multimerge(H, dfs, on, suffixes, how):
+    kw = {} if how is None else {"how": how}
+    return prs.multimerge(dfs, on, suffixes=suffixes, **kw)
+
+
+grid("multimerge", "g_multimerge", _g_multimerge,
+     dict(dfs=[("idx", "H:dfs_indexed"), ("key", "H:dfs_list")], on=[("index", "index"), ("key", "key")],
+          suffixes=[("none", None), ("heap", "H:suffixes_list")], how=[("def", None), ("inner", "inner"), ("left", "left")]), cap=14)
+
+
+def _g_powerlaw(H, c, cmin, method):
+    return prs.powerlaw_mle_alpha(c, cmin=cmin, method=method)
+
+
+grid("powerlaw", "g_powerlaw_mle", _g_powerlaw,
+     dict(c=[("arr", "H:counts_arr"), ("arr_b", "H:counts_arr_b"), ("big", "H:counts_big")], cmin=[("1", 1), ("2", 2), ("3", 3)],
+          method=[("simple", "simple"), ("cc", "continuitycorrection"), ("exact", "exact")]))
+
+
+def _g_neighbors(H, fn, seqs, neighborhood):
+    f = getattr(prs, fn)
+    r = f(seqs, neighborhood=neighborhood) if neighborhood is not None else f(seqs)
+    return sorted(r) if fn != "calculate_neighbor_numbers" else r
+
+
+grid("neighbors", "g_neighbors", _g_neighbors,
+     dict(fn=[("pairs", "find_neighbor_pairs"), ("idx", "find_neighbor_pairs_index"), ("num", "calculate_neighbor_numbers")],
+          seqs=[("set", "H:seqs_set"), ("tuple", "H:seqs_tuple"), ("arr", "H:seqs_arr_b")],
+          neighborhood=[("def", None), ("ham", prs.hamming_neighbors), ("lev", prs.levenshtein_neighbors), ("cb", _CB)]), cb=cb_hamming_nb)
